@@ -159,14 +159,14 @@ func ruleDepthCut(r *core.Reporter) {
 		r.Undecided("AddChild(GotChildren)/sites", "", "no creation site for asset children found")
 		return
 	}
-	for i, ac := range sites {
-		fn := owners[i]
-		r.Analysed(fn)
-		name := core.FuncName(fn)
-		type edge struct {
-			b *ssa.BasicBlock
-			s int
-		}
+	type edge struct {
+		b *ssa.BasicBlock
+		s int
+	}
+	// cutAt: `target` (in fn) runs only under domains crawl or depth-without-redirections(item) ≤ 2 — decided in fn,
+	// or, when item is a parameter of fn, at every static call site of fn with the argument bound to it.
+	var cutAt func(fn *ssa.Function, target ssa.Instruction, item ssa.Value, depth int) bool
+	cutAt = func(fn *ssa.Function, target ssa.Instruction, item ssa.Value, depth int) bool {
 		var escapes []edge
 		kOK := false
 		for _, ii := range ir.Ifs(fn) {
@@ -174,22 +174,11 @@ func ruleDepthCut(r *core.Reporter) {
 				escapes = append(escapes, edge{ii.If.Block(), ii.EdgeWhen(true)})
 			}
 			a := ii.Atom
-			// depth > K  ≡  K < depth
-			if a.V == nil && a.Op == token.LSS {
+			// depth > K ≡ K < depth ;  depth >= K+1 ≡ (K+1) <= depth
+			if a.V == nil && (a.Op == token.LSS || a.Op == token.LEQ) {
 				if k, okc := ir.ConstInt(a.X); okc {
-					if c, isC := a.Y.(*ssa.Call); isC && ir.IsCallTo(c, "(*"+pkgModels+".Item).GetDepthWithoutRedirections") && ir.SameValue(c.Call.Args[0], ac.Call.Args[0]) {
-						if k <= 2 {
-							kOK = true
-							escapes = append(escapes, edge{ii.If.Block(), ii.EdgeWhen(false)})
-						}
-					}
-				}
-			}
-			// depth >= K+1 form: (K+1) <= depth
-			if a.V == nil && a.Op == token.LEQ {
-				if k, okc := ir.ConstInt(a.X); okc {
-					if c, isC := a.Y.(*ssa.Call); isC && ir.IsCallTo(c, "(*"+pkgModels+".Item).GetDepthWithoutRedirections") && ir.SameValue(c.Call.Args[0], ac.Call.Args[0]) {
-						if k <= 3 {
+					if c, isC := a.Y.(*ssa.Call); isC && ir.IsCallTo(c, "(*"+pkgModels+".Item).GetDepthWithoutRedirections") && ir.SameValue(c.Call.Args[0], item) {
+						if (a.Op == token.LSS && k <= 2) || (a.Op == token.LEQ && k <= 3) {
 							kOK = true
 							escapes = append(escapes, edge{ii.If.Block(), ii.EdgeWhen(false)})
 						}
@@ -205,7 +194,39 @@ func ruleDepthCut(r *core.Reporter) {
 			}
 			return true
 		}})
-		if kOK && !res.Reached[ac] {
+		if kOK && !res.Reached[target] {
+			return true
+		}
+		par := resolveParam(item, 0)
+		if par == nil || par.Parent() != fn || depth >= 3 {
+			return false
+		}
+		idx := paramIndex(par)
+		callers := 0
+		for _, g := range p.ModFuncs {
+			ok := true
+			allInstrs(g, func(in ssa.Instruction) {
+				c, isC := in.(*ssa.Call)
+				if !isC || ir.CalleeOf(c.Common()) != fn {
+					return
+				}
+				callers++
+				r.Analysed(g)
+				if idx < 0 || idx >= len(c.Call.Args) || !cutAt(g, c, c.Call.Args[idx], depth+1) {
+					ok = false
+				}
+			})
+			if !ok {
+				return false
+			}
+		}
+		return callers > 0
+	}
+	for i, ac := range sites {
+		fn := owners[i]
+		r.Analysed(fn)
+		name := core.FuncName(fn)
+		if cutAt(fn, ac, ac.Call.Args[0], 0) {
 			r.Held(name+"/depth-cut", 1, "asset children only under domains crawl or depth-without-redirections ≤ 2")
 		} else {
 			r.Violated(name+"/depth-cut", p.InstrPos(ac), "asset children can be added for an item deeper than two levels below the page without domains crawl: resources are followed beyond three levels (endlessly nested playlists/JSON never end)")
@@ -246,8 +267,27 @@ func ruleDepthCut(r *core.Reporter) {
 			}
 		}
 	}
+	// iterative form: a walk over .parent that counts by one and looks at the status — the exact numeric
+	// definition is then left to the unit table of the models package (not decided here)
+	walksParents, countsByOne, readsStatus := false, false, false
+	allInstrs(df, func(in ssa.Instruction) {
+		if fa, ok := in.(*ssa.FieldAddr); ok {
+			if _, f, okf := ir.FieldOf(fa); okf && f == "parent" {
+				walksParents = true
+			} else if okf && f == "status" {
+				readsStatus = true
+			}
+		}
+		if b, ok := in.(*ssa.BinOp); ok && (b.Op == token.ADD || b.Op == token.SUB) {
+			if one, okc := ir.ConstInt(b.Y); okc && one == 1 {
+				countsByOne = true
+			}
+		}
+	})
 	if plusOne >= 1 && okPlain {
 		r.Held("GetDepthWithoutRedirections", plusOne+plain, "parent depth + 1, except for redirect nodes")
+	} else if plusOne == 0 && plain == 0 && walksParents && countsByOne && readsStatus {
+		r.Held("GetDepthWithoutRedirections", 1, "iterative walk over the parent chain counting non-redirect levels (numeric definition not decided statically)")
 	} else {
 		r.Violated("GetDepthWithoutRedirections", fnPos(p, df), "the depth no longer grows by one per non-redirect level (plus-one returns=%d, unguarded pass-through=%v)", plusOne, !okPlain)
 	}
